@@ -283,7 +283,9 @@ StartRoots(cls) ==
   /\ call = None /\ ncalls < MaxCalls
   /\ call' = [k |-> "roots", cls |-> cls, flying |-> 1..NShards, queue |-> <<>>, taken |-> 0, acc |-> <<>>,
               ctx |-> "live", ctxAt |-> -1, outcome |-> None]
-  /\ reqs' = [s \in AllShards |-> IF s <= NShards THEN 1 ELSE 0]     \* every shard is asked, all at once
+  \* NAMED CLAUSE FanOut: every shard is asked, and all requests are outstanding before any answer is needed (the
+  \* property only needs every shard asked; the completion orders below presuppose the concurrency of the code)
+  /\ reqs' = [s \in AllShards |-> IF s <= NShards THEN 1 ELSE 0]
   /\ last' = None
   /\ UNCHANGED <<cfg, mult, Returned, ncalls, hist>>
 
@@ -350,7 +352,7 @@ Spec == Init /\ [][Next]_vars
 LiveSpec == Spec /\ WF_vars(RootsProgress)
 
 (* ----------------------------- the property ---------------------------- *)
-TypeOK == /\ cfg \in ShardLists
+TypeOK == /\ Len(cfg) \in 1..MaxShards
           /\ ncalls \in 0..MaxCalls
           /\ \A s \in AllShards : mult[s] \in 0..MaxMult /\ reqs[s] \in 0..MaxAnswers
           /\ call = None \/ call.k \in {"submit", "roots"}
